@@ -511,7 +511,11 @@ func c09PanicSources(c *Ctx, rule string) {
 			case *ast.CallExpr:
 				if id, ok := y.Fun.(*ast.Ident); ok && id.Name == "panic" {
 					if _, isB := f.Pkg.TypesInfo.Uses[id].(*types.Builtin); isB {
-						c.Fail(rule, f.Name+"|panic", y.Pos(), "explicit panic reachable from parsing")
+						if bad, why := newPanicVerdict(f, y); bad {
+							c.Fail(rule, f.Name+"|panic", y.Pos(), "explicit panic reachable from parsing: %s", why)
+						} else {
+							c.Undecided(rule, f.Name+"|panic", "an explicit panic at %s in the SQL front end: %s", c.W.Pos(y.Pos()), why)
+						}
 					}
 				}
 			case *ast.IndexExpr:
@@ -635,8 +639,31 @@ func indexGuarded(f *Func, g *Graph, n ast.Node, x, index ast.Expr) (bool, strin
 	if inRange {
 		return true, "range index over the same slice"
 	}
+	// range index over S into a slice that was made with len(S) and is never re-sliced or reassigned
+	var sameLen bool
+	if xid, ok := ast.Unparen(x).(*ast.Ident); ok {
+		defs := f.assignsTo(f.Decl.Body, f.ObjOf(xid))
+		if len(defs) == 1 && len(defs[0].Rhs) == 1 {
+			if mk, ok := ast.Unparen(defs[0].Rhs[0]).(*ast.CallExpr); ok && len(mk.Args) == 2 {
+				if fid, ok := mk.Fun.(*ast.Ident); ok && fid.Name == "make" {
+					madeLen := exprKey(mk.Args[1])
+					ast.Inspect(f.Decl.Body, func(y ast.Node) bool {
+						if rs, ok := y.(*ast.RangeStmt); ok && rs.Body.Pos() <= n.Pos() && n.End() <= rs.Body.End() {
+							if k, ok := rs.Key.(*ast.Ident); ok && k.Name == is && madeLen == "len("+exprKey(rs.X)+")" {
+								sameLen = true
+							}
+						}
+						return true
+					})
+				}
+			}
+		}
+	}
+	if sameLen {
+		return true, "range index over a slice of the length this one was made with"
+	}
 	// x[i] after `if i == len(x) { return }`
-	if g.HoldsAt(loc, Rel{is, token.NEQ, "len(" + xs + ")"}) {
+	if g.HoldsAt(loc, Rel{is, token.NEQ, "len(" + xs + ")"}) && !modifiedSinceGuard(f, g, loc, index, xs) {
 		return true, "dominated by the `" + is + " == len(" + xs + ")` return (cursor never exceeds the length: stored only by the guarded increment)"
 	}
 	// x[i-1] after `if i == 0 { return }`
@@ -784,3 +811,58 @@ func c09ScannerRefill(c *Ctx, rule string) {
 }
 
 var _ = sort.Strings
+
+
+// modifiedSinceGuard: the index is a local variable that is stored (i++, i = …) on a path that reaches loc without
+// re-evaluating a condition that compares it with the length again.
+func modifiedSinceGuard(f *Func, g *Graph, loc Loc, index ast.Expr, xs string) bool {
+	id, ok := ast.Unparen(index).(*ast.Ident)
+	if !ok {
+		return false
+	}
+	obj := f.ObjOf(id)
+	if v, ok := obj.(*types.Var); !ok || v.IsField() {
+		return false
+	}
+	var mods []ast.Node
+	inspectBody(g.body, func(x ast.Node) bool {
+		switch y := x.(type) {
+		case *ast.IncDecStmt:
+			if i2, ok := ast.Unparen(y.X).(*ast.Ident); ok && f.ObjOf(i2) == obj {
+				mods = append(mods, y)
+			}
+		case *ast.AssignStmt:
+			if y.Tok == token.DEFINE {
+				return true
+			}
+			for _, l := range y.Lhs {
+				if i2, ok := ast.Unparen(l).(*ast.Ident); ok && f.ObjOf(i2) == obj {
+					mods = append(mods, y)
+				}
+			}
+		}
+		return true
+	})
+	for _, m := range mods {
+		ml, ok := g.Locate(m)
+		if !ok {
+			continue
+		}
+		hit, _ := g.Forward(&ml, nil, func(nn ast.Node, at Loc) Verdict {
+			if at == loc {
+				return Hit
+			}
+			if e, isExpr := nn.(ast.Expr); isExpr {
+				k := exprKey(e)
+				if strings.Contains(k, id.Name) && strings.Contains(k, "len("+xs+")") {
+					return Cut // compared with the length again
+				}
+			}
+			return Go
+		}, nil)
+		if hit {
+			return true
+		}
+	}
+	return false
+}
